@@ -11,7 +11,8 @@ import pickle
 
 def main():
     with open(sys.argv[1], "rb") as f:
-        spec = pickle.load(f)
+        raw = f.read()
+    spec = json.loads(raw.decode()) if raw[:1] == b"{" else pickle.loads(raw)     # (C10's strace victims are given JSON)
     import xyzpy
     from vf import cropkit, common
     common.assert_repo()
